@@ -125,7 +125,7 @@ def _twin(case):
     return out, new, 1.0
 
 
-def _measure(ctx, tree, t, label, extents_first=False):
+def _measure(ctx, tree, t, label, extents_first=False, lm=None):
     from swcgeom.analysis import extract_feature, get_volume
     from swcgeom.analysis.lmeasure import LMeasure
 
@@ -139,7 +139,7 @@ def _measure(ctx, tree, t, label, extents_first=False):
     for name in LEN_FEATURES + RATIO_FEATURES + COUNT_FEATURES:
         out[name] = np.asarray(ctx.lib(f"{label}/extract_feature[{name}]", fe.get, name), dtype=np.float64).reshape(-1)
     out["volume"] = float(ctx.lib(f"{label}/get_volume", get_volume, tree, accuracy=3))
-    lm = LMeasure()
+    lm = lm if lm is not None else LMeasure()
     ch = models.children(t["parents"])
     ang = {}
     per_node = {}
@@ -188,8 +188,15 @@ def run_case(case, ctx):
     extents_first = case["steps"] % 3 == 0
     if extents_first:
         ctx.cls("extents-asked-first")
-    A = _measure(ctx, tree_a, t, "original", extents_first)
-    B = _measure(ctx, tree_b, twin, "twin", extents_first)
+    shared = None
+    if case["steps"] % 2 == 1:
+        # one L-Measure object for both neurons, as in a session that measures a whole data set with it
+        from swcgeom.analysis.lmeasure import LMeasure
+
+        shared = LMeasure()
+        ctx.cls("one-lmeasure-object-for-both-twins")
+    A = _measure(ctx, tree_a, t, "original", extents_first, shared)
+    B = _measure(ctx, tree_b, twin, "twin", extents_first, shared)
     if kind == "scale" and case["steps"] % 2 == 0:
         # the library's own Scale applied to the tree that has just been measured: the derived tree's lengths are its
         # own (s times the original's), whatever was computed on the original before
@@ -295,6 +302,59 @@ def run_case(case, ctx):
                       lambda: f"{prof['original'].tolist()} vs {np.asarray(sha.get(k)).tolist()}; {info()}")
             ctx.check(np.array_equal(prof["original"], prof["twin"]), "rigid/sholl-from-a-file-name/unchanged-by-translation",
                       lambda: f"{prof['original'].tolist()} vs {prof['twin'].tolist()}; {info()}")
+
+
+# ----------------------------------------------------------------------------- scaling by powers of two, far from unit size
+@st.composite
+def pow2_strategy(draw, tier):
+    max_n = 20 if tier == "quick" else 60
+    t = draw(gen_tree.tree_case(min_n=2, max_n=max_n, regimes=["lattice"], soma_root=True, distinct_points=True,
+                                permute=False, extras=False))
+    return {"tree": t, "exp": draw(st.sampled_from([-30, -27, -24, -23, -20, -16, -10, 10, 16, 20, 24, 30]))}
+
+
+def run_pow2(case, ctx):
+    """Scaling by 2^k is exact in binary floating point (no re-rounding of the twin, no rounding differences in products,
+    sums of squares and square roots): lengths scale by exactly s, ratios and counts do not move at all - at any size."""
+    from swcgeom.analysis import extract_feature
+    from swcgeom.analysis.lmeasure import LMeasure
+
+    t = case["tree"]
+    s = 2.0 ** case["exp"]
+    twin = dict(t)
+    for c in "xyzr":
+        twin[c] = [v * s for v in t[c]]
+    n = len(t["parents"])
+    ch = models.children(t["parents"])
+    ctx.cls(f"scale:2^{case['exp']}", "tiny" if case["exp"] < 0 else "huge")
+    ctx.nontrivial(n >= 5 and any(len(c) >= 2 for c in ch))
+    tree_a, tree_b = gen_tree.build_tree(t, extras=False), gen_tree.build_tree(twin, extras=False)
+    fa, fb = extract_feature(tree_a), extract_feature(tree_b)
+    info = lambda: f"s=2^{case['exp']} parents={t['parents']}"  # noqa
+    for name in LEN_FEATURES:
+        a = np.asarray(ctx.lib(f"original/{name}", fa.get, name), dtype=np.float64).reshape(-1) * s
+        b = np.asarray(ctx.lib(f"twin/{name}", fb.get, name), dtype=np.float64).reshape(-1)
+        ctx.check(len(a) == len(b) and bool(np.all(np.abs(a - b) <= 1e-5 * np.abs(a))), f"pow2/{name}/scales-with-s",
+                  lambda: f"{a.tolist()[:6]} vs {b.tolist()[:6]}; {info()}")
+    for name in RATIO_FEATURES + COUNT_FEATURES:
+        a = np.asarray(ctx.lib(f"original/{name}", fa.get, name), dtype=np.float64).reshape(-1)
+        b = np.asarray(ctx.lib(f"twin/{name}", fb.get, name), dtype=np.float64).reshape(-1)
+        ctx.check(len(a) == len(b) and bool(np.all(np.abs(a - b) <= 1e-5 * np.abs(a))), f"pow2/{name}/unchanged",
+                  lambda: f"{a.tolist()[:6]} vs {b.tolist()[:6]}; {info()}")
+    lm = LMeasure()
+    for i in range(n):
+        na, nb = tree_a.node(i), tree_b.node(i)
+        pa, pb = float(lm.path_distance(na)) * s, float(lm.path_distance(nb))
+        ea, eb = float(lm.euc_distance(na)) * s, float(lm.euc_distance(nb))
+        ctx.check(abs(pa - pb) <= 1e-5 * abs(pa) and abs(ea - eb) <= 1e-5 * abs(ea), "pow2/path-and-euclidean-distance/scale-with-s",
+                  lambda: f"node {i}: {(pa, ea)} vs {(pb, eb)}; {info()}")
+        ctx.check(int(lm.branch_order(na)) == int(lm.branch_order(nb)) and int(lm.terminal_degree(na)) == int(lm.terminal_degree(nb)),
+                  "pow2/branch-order-and-terminal-degree/unchanged", lambda: f"node {i}; {info()}")
+    la, lb = float(tree_a.length()) * s, float(tree_b.length())
+    ctx.check(abs(la - lb) <= 1e-5 * abs(la), "pow2/tree-length/scales-with-s", lambda: f"{la} vs {lb}; {info()}")
+    for ba, bb in zip(tree_a.get_branches(), tree_b.get_branches()):
+        ta, tb = float(ba.tortuosity()), float(bb.tortuosity())
+        ctx.check(abs(ta - tb) <= 1e-5 * abs(ta), "pow2/branch-tortuosity/unchanged", lambda: f"{ta} vs {tb}; {info()}")
 
 
 # ----------------------------------------------------------------------------- volume at the default (Monte-Carlo) level
@@ -444,7 +504,9 @@ SUBCHECKS = [
     Sub("invariance", case_strategy, run_case, quick=3000, thorough=40000, shards_quick=8,
         required={"kind:rigid": 150, "kind:renumber": 80, "kind:scale": 80, "furcation": 300, "translated-far-away": 60,
                   "finely-traced": 100, "scaled-by-the-library-after-measuring": 40, "extents-asked-first": 300,
-                  "sholl-from-a-file-name": 60, "traced-in-steps-of-1/32-and-moved-far-away": 100}),
+                  "sholl-from-a-file-name": 60, "traced-in-steps-of-1/32-and-moved-far-away": 100,
+                  "one-lmeasure-object-for-both-twins": 300}),
+    Sub("scale_pow2", pow2_strategy, run_pow2, quick=300, thorough=4000, shards_quick=4, required={"tiny": 60, "huge": 60}),
     Sub("volume_mc", volume_mc_strategy, run_volume_mc, quick=40, thorough=640, shards_quick=8,
         required={"siblings-reordered": 8, "daughter-cones-overlap>1%": 8, "family:axis-parallel": 4, "family:oblique": 8}),
 ]
